@@ -137,6 +137,23 @@ def one_case(ctx, res, i, reqs, impls):
     res.count(f"op:{name}")
     res.count(f"proto:{version}/{level}")
     dgs = [d for d in seam.datagrams if not (version == "v3" and B.parse_message(d).get("engine_id") == b"")]
+    # the discovery probe is an emitted datagram too: RFC 3414 section 4 says what it has to be
+    for d in seam.datagrams:
+        if version == "v3" and d not in dgs:
+            pm = B.parse_message(d)
+            sc = pm.get("scoped") or {}
+            pp = sc.get("pdu") or {}
+            got_p = {"flags": pm["flags"], "user": bytes(pm["user"]), "boots": pm["boots"], "time": pm["time"], "auth": bytes(pm["auth_params"]), "priv": bytes(pm["priv_params"]),
+                     "model": pm["security_model"], "ctx_engine": bytes(sc.get("context_engine_id", b"?")), "ctx_name": bytes(sc.get("context_name", b"?")),
+                     "type": pp.get("type"), "rid_is_msgid": pp.get("request_id") == pm["msg_id"], "a": pp.get("a"), "b": pp.get("b"), "vbs": len(pp.get("varbinds", [0]))}
+            want_p = {"flags": 4, "user": b"", "boots": 0, "time": 0, "auth": b"", "priv": b"", "model": 3, "ctx_engine": b"", "ctx_name": b"", "type": "get", "rid_is_msgid": True, "a": 0, "b": 0, "vbs": 0}
+            res.count("probe")
+            if got_p != want_p:
+                diff = sorted(k for k in want_p if got_p.get(k) != want_p[k])
+                res.violate("seam", {**case, "probe": d.hex()}, {k: want_p[k] for k in diff}, {k: got_p.get(k) for k in diff},
+                            f"the discovery probe is not the RFC 3414 discovery request (fields {diff})", {"kind": "emit", "what": "wrong-probe", "field": diff[0]})
+            reqs.append({"op": "emit.probe", "rid": pm["msg_id"]})
+            impls.append(({**case, "probe": True}, d.hex(), None))
     if len(dgs) != 1:
         res.violate("seam", case, "one request datagram", len(dgs), "the operation did not emit exactly one request", {"kind": "emit", "what": "count"})
         return
